@@ -48,15 +48,18 @@ def gen_program(rng, max_holds=4, allow_equal_temps=True):
     # keep the profile small enough to ship to Coq
     while t_tot / dt > 400:
         dt = dt * 10
-    return dict(start=start, end=end, rate=rate, dt=float(dt), t_tot=float(t_tot), holds=holds)
+    return dict(start=start, end=end, rate=rate, dt=float(dt), t_tot=float(t_tot), holds=holds,
+                container=rng.choice(["list", "list", "tuple", "dict"]))
 
 
 def build(prog, oc, cnTemp=None):
     holding = None
     if prog["holds"]:
         holding = [dict(h) for h in prog["holds"]]
-        if len(holding) == 1 and prog.get("single_dict"):
+        if len(holding) == 1 and prog.get("container") == "dict":
             holding = holding[0]
+        elif prog.get("container") == "tuple":
+            holding = tuple(holding)
     return oc.OperatingConditions(t_tot=prog["t_tot"], cooling={"rate": prog["rate"], "start": prog["start"], "end": prog["end"]},
                                   holding=holding, cnTemp=cnTemp)
 
